@@ -21,7 +21,9 @@
      - Cleanup reports an error iff the restore answer was neither ok, permission nor not-exist
                                                                                        (tolerated)
      - in Monitor mode no GetAuto / SetAuto / Restore occurs at all. *)
-From CR Require Import Model.Dialer Model.DialerSpec Proofs.DialerC11.
+From CR Require Import Model.Dialer.
+From CR Require Import Model.DialerSpec.
+From CR Require Import Proofs.DialerC11.
 Local Open Scope Z_scope.
 
 Theorem C11_monitor_accepts : forall sc, real_script sc ->
